@@ -14,9 +14,16 @@
    name to the id of its '~' form (one NAME token for the lexer), for the
    constructor / destructor recognition inside nested classes.
 
+   The same loop reads namespaces (Parse/NsHeader.v; `inline` through the translated
+   _parse_inline), namespace aliases, linkage blocks and `extern` / `inline`
+   declarations (the translated _parse_extern / _parse_inline), `typedef` (the
+   translated _parse_typedef), enum definitions and opaque enum declarations
+   (enum_head: _parse_enum_decl up to the closing brace), using statements
+   (Parse/Using.v), static_assert, friends and access specifiers.
+
    Outside this model (code 4): attributes behind the class key, qualified or
    templated class names, elaborated type specifiers in declarations (`struct X x;`),
-   template headers, enums, class definitions behind `typedef` inside a class.
+   template headers, class definitions behind `typedef` inside a class.
    Tied to the code by the differential run of harness/classdef.py. *)
 From Coq Require Import NArith List Bool Lia.
 Import ListNotations.
